@@ -114,19 +114,39 @@ theorem c20_managed_inv (P : Prog) (wf : WF P) (s : State) (h : Reachable P s) :
       if P.managed k = true ∧ ((s.th k).status = .handedOver ∨ (s.th k).status = .exited) then 1 else 0) :=
   ⟨⟨(c20_managed_count P wf s h).1, (c20_managed_count P wf s h).2.1⟩, fun k hk => c20_managed_owner P wf s h k hk⟩
 
-/-- **No leak.** Wrapper blocks (`struct thread_wrapper`) and at-exit records are counted as the allocator sees
-them.  (1) a `s_thread_wrapper_destroy` never runs without a live wrapper block (no double free at the level of
-block counts); (2) once every thread has finished (no code left; never created, exited or joined) and the
+/-- **No leak.** Wrapper blocks (`struct thread_wrapper`), the name strings attached to them (`options->name`,
+released by the thread at the top of `thread_fn` or by `s_thread_wrapper_destroy` when the launch fails) and
+at-exit records are counted as the allocator sees them.  (1) a `s_thread_wrapper_destroy` never runs without the
+blocks it frees being live (no double free at the level of block counts); a thread holds a name only while it is
+created and has not started; (2) once every thread has finished (no code left; never created, exited or joined) and the
 managed count is 0 — which is what a successful join-all establishes — no wrapper and no at-exit record is live. -/
 theorem c20_no_leak (P : Prog) (wf : WF P) (s : State) (h : Reachable P s) :
-    (∀ t k rest, t < P.n → (s.th t).code = Instr.freeW k :: rest → 1 ≤ s.wLive) ∧
+    (∀ t k nm rest, t < P.n → (s.th t).code = Instr.freeW k nm :: rest → 1 + nm.toNat ≤ s.wLive) ∧
+    (∀ k, (s.th k).named = true → (s.th k).status = .created) ∧
     ((∀ k, k < P.n → (s.th k).code = [] ∧
         ((s.th k).status = .notCreated ∨ (s.th k).status = .exited ∨ (s.th k).status = .joined)) →
       s.count = 0 → s.wLive = 0 ∧ s.cbLive = 0) := by
   have hc := countInv_reachable P wf.n_pos wf.main s h
   have hl := (logInv_reachable P s h).1
   have hw := wrapInv_reachable P wf.n_pos wf.main s h
-  exact ⟨fun t k rest ht hcd => wLive_pos P s t k rest ht hcd hw.suf hw.eq, fun hfin h0 => no_leak_final P s hc hl hw hfin h0⟩
+  exact ⟨fun t k nm rest ht hcd => wLive_pos P s t k nm rest ht hcd hw.suf hw.eq, hw.nm,
+    fun hfin h0 => no_leak_final P s hc hl hw hfin h0⟩
+
+/-- **Join target.** The thread-id hand-over is part of the protocol: a thread writes its own id into its
+wrapper's `thread_copy` at the top of `thread_fn`, before anything else.  In every reachable state every slot
+that is referenced by the lazy-join machinery — in the pending list, in a join list, or as the target of a
+pending `pthread_join` — has started and its wrapper holds exactly its own id, so the id a joiner passes to
+`pthread_join` is the id of the thread that parked the wrapper; no `pthread_join` is ever issued on an id that
+is not the thread's (`misuse = 0`). -/
+theorem c20_join_target (P : Prog) (s : State) (h : Reachable P s) :
+    (∀ k, 2 ≤ (s.th k).status.rank → (s.th k).copyId = some k) ∧
+    (∀ k, k ∈ s.pending → (s.th k).copyId = some k) ∧
+    (∀ t k, Instr.joinM k ∈ (s.th t).code → (s.th k).copyId = some k) ∧
+    (∀ t l, Instr.joinAndFree l ∈ (s.th t).code → ∀ k, k ∈ l → (s.th k).copyId = some k) ∧
+    s.misuse = 0 := by
+  have hr := refInv_reachable P s h
+  exact ⟨hr.copy, fun k hk => hr.copy k (hr.refs.mp k hk), fun t k hm => hr.copy k (hr.refs.mj t k hm),
+    fun t l hm k hk => hr.copy k (hr.refs.mf t l hm k hk), hr.nomis⟩
 
 /-- **Join-all.** If `aws_thread_join_all_managed` returns success (with or without a configured timeout),
 every managed thread that had been created when the call began (`snap`, recorded by the call's first
@@ -224,12 +244,12 @@ theorem c20_join_all_snapshot (P : Prog) (s : State) (k : Nat) :
 /-! ### The hypotheses are satisfiable: a concrete execution reaching a successful join-all -/
 
 /-- main launches two managed threads (the first one pinned to a cpu that cannot be honoured: its first
-`pthread_create` fails and the launch is retried unpinned; it registers two at-exit callbacks and launches the second) and
+`pthread_create` fails and the launch is retried unpinned; both are named; it registers two at-exit callbacks and launches the second) and
 calls join-all -/
 def demo : Prog :=
   { n := 3
     managed := fun k => k == 1 || k == 2
-    body := fun k => if k = 0 then [.launch 1 true 1, .joinAll, .getCount] else if k = 1 then [.atexit 7, .atexit 8, .launch 2 false 0] else [] }
+    body := fun k => if k = 0 then [.launch 1 true 1 true, .joinAll, .getCount] else if k = 1 then [.atexit 7, .atexit 8, .launch 2 false 0 true] else [] }
 
 example : WF demo := ⟨by decide, by decide⟩
 
@@ -240,7 +260,7 @@ both managed threads joined, callbacks 8 then 7 run on thread 1, count 0, nothin
 example :
     let s := drive demo 200 (init demo)
     s.log.contains (Ev.joinAllRet 0 true [2, 1]) = true ∧ (s.th 1).status = .joined ∧ (s.th 2).status = .joined ∧
-    cbsOf 1 s.log = [7, 8] ∧ s.count = 0 ∧ s.wLive = 0 ∧ s.cbLive = 0 := by
+    cbsOf 1 s.log = [7, 8] ∧ s.count = 0 ∧ s.wLive = 0 ∧ s.cbLive = 0 ∧ s.misuse = 0 := by
   decide
 
 end AwsVerif.Props.C20
